@@ -33,6 +33,7 @@ EXPLANATION = ('proved for all inputs: is_sqr in every prime field (the jacobi s
 ASSUMPTIONS = ['gmpy2 modelled by the stubs of mpyc/gmpy.py (legendre = jacobi loop, powmod = built-in pow, invert = '
                'extended Euclid)', 'polynomial arithmetic of gfpx.py as modelled by area GFpX']
 TRUSTED = ['harness/finfld_common.py', 'harness/finfld_oracle.py']
+TIME_LIMIT = 10     # seconds per real-code call (a 256-bit sqrt takes milliseconds)
 
 
 def fdesc(w):
@@ -42,18 +43,25 @@ def fdesc(w):
 def real_sqrt(w, a, inv):
     x = w.elem(a)
     try:
-        r = x.sqrt(INV=inv)
+        with fc.time_limit(TIME_LIMIT):
+            r = x.sqrt(INV=inv)
     except ZeroDivisionError:
         return 'ZeroDivisionError'
     except ValueError:
         return 'ValueError'
+    except fc.RealCodeTimeout:
+        return f'NO-RESULT-WITHIN-{TIME_LIMIT}s'
     if not w.reduced(r):
         return f'UNREDUCED:{r!r}'
     return w.txt(r)
 
 
 def real_issqr(w, a):
-    r = w.elem(a).is_sqr()
+    try:
+        with fc.time_limit(TIME_LIMIT):
+            r = w.elem(a).is_sqr()
+    except fc.RealCodeTimeout:
+        return f'NO-RESULT-WITHIN-{TIME_LIMIT}s'
     if r is True or r is False:
         return 'True' if r else 'False'
     return f'non-bool:{r!r}'
@@ -158,6 +166,9 @@ def run(ctx):
                 ctx.violation(f'{w.name} element {a}: ' + '; '.join(bad),
                               {'kind': 'sqrt', 'field': fdesc(w), 'a': a, 'is_sqr': issq, 'sqrt': rt, 'sqrt_inv': rti,
                                'failed': bad})
+            if any(t.startswith('NO-RESULT') for t in (issq, rt, rti)):
+                ctx.note(f'{w.name}: real code did not return within {TIME_LIMIT}s for element {a}; field abandoned')
+                break
         ctx.sample({'field': w.name, 'a': els[len(els) // 2], 'sqrt': real_sqrt(w, els[len(els) // 2], False)})
     out = common.LeanDriver('FinFld').run(lines)
     ctx.compare('sqrt / sqrt(INV) / is_sqr', reals, out, meta)
